@@ -60,8 +60,27 @@ func trunc(s string, n int) string {
 }
 
 // twinCheck: GC(g) == μ(GC(f)).
+// expandPure: additionally expand every pure, non-recursive library callee in place (second attempt of a mirror comparison:
+// when one half was rewritten through a new helper and its twin calls a pinned one, both must be seen expanded).
+func expandPure(c *Ctx) BuildOpts {
+	e := c.E()
+	return BuildOpts{Tag: "pure", Inline: func(callee *ssa.Function) bool {
+		sum := e.Sum[callee]
+		return sum != nil && len(sum.W) == 0 && sum.Out == nil && len(sum.Undecided) == 0 && len(sum.FreshInto) == 0 && len(sum.Keep) == 0 && len(callee.Blocks) <= 12
+	}}
+}
+
 func twinCheck(c *Ctx, f, g *ssa.Function, mu *Mu) (ok bool, undecided bool, facts string) {
-	gf, gg := c.GC(f), c.GC(g)
+	ok, undecided, facts = twinCheckWith(c, f, g, mu, c.GC(f), c.GC(g))
+	if !ok && !undecided {
+		if ok2, und2, facts2 := twinCheckWith(c, f, g, mu, c.GCWith(f, expandPure(c)), c.GCWith(g, expandPure(c))); ok2 && !und2 {
+			return true, false, facts2 + " (with pure callees expanded in place on both sides)"
+		}
+	}
+	return
+}
+
+func twinCheckWith(c *Ctx, f, g *ssa.Function, mu *Mu, gf, gg *GCNF) (ok bool, undecided bool, facts string) {
 	if gf.Undecided != "" || gg.Undecided != "" {
 		return false, true, "normal form not built: " + gf.Undecided + gg.Undecided
 	}
